@@ -20,8 +20,36 @@ struct C15 : Prop {
 		       "bidib_ping returns 0 and addresses the model's current address iff the board is connected, else 1 and nothing is sent. "
 		       "non-trivial = >=1 interface with children lost or >=1 re-login at another address; distinct = (shape, trace).";
 	}
+	// two sessions in one process: a slow-booting leaf board logs in after each start-up; the interface's table version starts over with every
+	// reset, so the login notice of session 2 is byte for byte the notice of session 1 - it must connect the board all the same
+	J generate_two_sessions(Rng &r) {
+		J plan = J::obj();
+		cfg::GenOpts o; o.max_boards = 4; o.max_trains = 1; o.allow_absent = false; o.allow_unknown = true; o.want_features = false; o.want_initial = false;
+		cfg::World w = cfg::gen_world(r, o);
+		std::vector<const cfg::Board *> lf; for (auto &b : w.boards) if (b.present && b.addr.size() == 1 && !b.is_iface()) lf.push_back(&b);
+		if (lf.empty()) return J();
+		const cfg::Board *x = lf[r.below(lf.size())];
+		cfg::install(plan, w, r);
+		{ J bus = plan["bus"]; J ns = bus["nodes"]; J ns2 = J::arr(); for (size_t i = 0; i < ns.size(); i++) { J n = ns[i]; if (j_bytes(n["addr"]) == x->addr) n.set("present", false); ns2.push(n); } bus.set("nodes", ns2); plan.set("bus", bus); }
+		J ss = J::arr();
+		for (int k = 0; k < 2; k++) {
+			J se = cfg::normal_session(0, r.coin() ? 0 : (int) r.range(5, 40));
+			if (k == 1) { J sev = J::arr(); J e0 = J::obj(); e0.set("at_us", 1000); e0.set("topo", "lost"); e0.set("node", pc::jaddr(x->addr)); sev.push(e0); se.set("start_bus", sev); }   // (it is switched off again while the host restarts)
+			J phs = J::arr();
+			{ J ph = J::obj(); ph.set("check", true); J post = J::arr(); post.push("quiesce"); ph.set("post", post); phs.push(ph); }
+			{ J ph = J::obj(); J ev = J::arr(); J e = J::obj(); e.set("at_us", (int) r.range(0, 3000)); e.set("topo", "new"); e.set("node", pc::jaddr(x->addr)); ev.push(e); ph.set("bus", ev); ph.set("check", true); J post = J::arr(); post.push("quiesce_noflush"); ph.set("post", post); phs.push(ph); }
+			{ J cp = J::obj(); J cpre = J::arr(); for (auto &b : w.boards) { J o2 = J::obj(); o2.set("op", "hl"); o2.set("fn", "ping"); J sa = J::arr(); sa.push(b.id); o2.set("s", sa); o2.set("i", pc::jarr({(int) r.byte()})); cpre.push(o2); } cp.set("pre", cpre); cp.set("commands", true); J post2 = J::arr(); post2.push("quiesce"); cp.set("post", post2); phs.push(cp); }
+			se.set("phases", phs); ss.push(se);
+		}
+		plan.set("sessions", ss); plan.set("two_sessions", true);
+		J sc = sched_json(r, "quick", 1, true);
+		if (sc.geti("policy") == sim::P_STARVE) sc.set("policy", (int) sim::P_RANDOM);
+		plan.set("sched", sc);
+		return plan;
+	}
 	J generate(Rng &r, const std::string &tier, uint64_t) override {
 		bool thorough = tier == "thorough";
+		if (r.chance(80)) { J tp = generate_two_sessions(r); if (tp.is_obj()) return tp; }
 		J plan = J::obj();
 		cfg::GenOpts o; o.max_boards = thorough ? 6 : 4; o.max_trains = 1; o.allow_absent = true; o.allow_unknown = true; o.want_features = r.chance(300); o.want_initial = false;
 		cfg::World w = cfg::gen_world(r, o);
